@@ -47,6 +47,7 @@ INFO = {
 }
 
 TOL = F(1, 10**12)
+SUBNORMAL_SLACK = F(1, 2**1064)
 UNDERFLOW = F(1, 2**990)        # a common mass below this is not a positive float: `&` may raise there
 RUN = "p%d_" % os.getpid()      # file-name prefix of this run inside work/C11 (runs may overlap)
 
@@ -130,6 +131,8 @@ def gen_weights(rng, n):
             j = rng.choice([k for k in range(n) if parts[k] > 0])
             parts[j] += rng.choice(NEAR_ONE) * rng.choice([1, -1])
         return [str(p) for p in parts]
+    if r < .475:    # an unnormalised measure whose weights and TOTAL are subnormal doubles (k * 2^-1074, total < 2^-1024)
+        return ["%d/%d" % (rng.choice([0, 1, 2, 3, 5, 40, 1000, 12345, 2**20 + 3, 2**40 + 1]), 2**1074) for _ in range(n)]
     if r < .50:     # large magnitudes (an unnormalised measure), integral: also passed as ints
         return [rng.choice(["0", "1", "1000", "4096", "250000", "1048576", "3"]) for _ in range(n)]
     if r < .54:     # large magnitudes with NEAR TIES: relative gaps 1e-6 .. 1e-5 that must be kept apart
@@ -594,8 +597,9 @@ def measure(spec, impl_items):
 
 def close(x, y, scale=0):
     """|x - y| <= 1e-12 * max(|y|, scale): relative to the exact value (scale: magnitude of the summands where
-    terms cancel, i.e. the forward error bound of a float sum); 2^-1000 only covers subnormal rounding"""
-    return abs(x - y) <= max(TOL * max(abs(y), scale), F(1, 2**1000))
+    terms cancel, i.e. the forward error bound of a float sum); SUBNORMAL_SLACK = 2^-1064 absolute covers the rounding of
+    up to 1024 products to the subnormal grid (2^-1074 each): it is invisible for any value that is a normal float"""
+    return abs(x - y) <= TOL * max(abs(y), scale) + SUBNORMAL_SLACK
 
 
 def xid(x):
@@ -626,20 +630,29 @@ def as_measure(items, joint=False):
     return m
 
 
-def same_measure(m, want, subnormal=False):
-    """subnormal=True (only for inputs holding floats below 2^-300, where intermediate products leave the
-    normal float range and lose their relative precision): entries are compared relative to the largest one"""
+def same_measure(m, want, extra=0):
+    """extra: additional ABSOLUTE slack per entry, used by the two renormalising operations whose float products
+    are rounded to the subnormal grid before the division (see norm_slack)"""
     if m is None:
         return False
-    sc = max([abs(v) for v in want.values()] + [0]) if subnormal else 0
     for k in set(m) | set(want):
-        if not close(m.get(k, F(0)), want.get(k, F(0)), scale=sc):
+        y = want.get(k, F(0))
+        if abs(m.get(k, F(0)) - y) > TOL * abs(y) + SUBNORMAL_SLACK + extra:
             return False
     return True
 
 
+def norm_slack(n, normaliser):
+    """float-range-aware bound for p_i*w_i / sum_j p_j*w_j (condition) and exp(l_i)/sum exp(l_j) (&): each of the n
+    products is rounded with absolute error <= 2^-1075 once it is subnormal, which the division by the normaliser
+    turns into at most (n+2)*2^-1074/normaliser on every entry.  It is < 1e-290 for any normaliser that is an
+    ordinary double and grows to O(1) only when the normaliser itself is a handful of subnormal units."""
+    return F(n + 2, 2**1074) / normaliser
+
+
 def oracle(case, res, subnormal=False):
-    """returns {op: clause} for every operation whose msdm result breaks its clause of the property"""
+    """(subnormal: kept for the callers; the bounds below are float-range aware for every input)
+    returns {op: clause} for every operation whose msdm result breaks its clause of the property"""
     bad = {}
     m1 = measure(case["d1"], res["d1"]["items"])
     m2 = measure(case["d2"], res["d2"]["items"])
@@ -650,14 +663,14 @@ def oracle(case, res, subnormal=False):
     g = [F(x) for x in case["_real"]]
     a, b = F(case["a"]), F(case["b"])
 
-    def chk(op, want, joint=False, defined=True):
+    def chk(op, want, joint=False, defined=True, extra=0):
         r = res[op]
         if not defined:
             return
         if not isinstance(r, list):
             bad[op] = "%s raises %s although the operation is defined" % (op, r.get("error"))
             return
-        if not same_measure(as_measure(r, joint), want, subnormal):
+        if not same_measure(as_measure(r, joint), want, extra):
             got_ = as_measure(r, joint)
             if got_ is not None and any(isinstance(k_, tuple) and k_ and k_[0] == "outside-universe" for k_ in got_):
                 bad[op] = "%s returns events that are not events of the inputs (wrong events)" % op
@@ -683,12 +696,14 @@ def oracle(case, res, subnormal=False):
             want[y] = want.get(y, 0) + p * py
     chk("chain", want)
     W = sum(p * w[x] for x, p in m1.items() if w[x] > 0)
-    # a normaliser below the NORMAL float range (only reachable with softmax floats ~1e-300): the products
-    # p*w are subnormal and carry no relative precision; like the common mass of `&` this is outside float range
-    chk("condition", {x: p * w[x] / W for x, p in m1.items() if w[x] > 0} if W > 0 else {}, defined=W >= UNDERFLOW)
-    if W >= UNDERFLOW and isinstance(res["condition"], list):
+    # condition is decided wherever the float-range-aware bound says something (slack < 1/4); where the normaliser is
+    # a few subnormal units msdm may also raise ZeroDivisionError (every product underflows to 0): undecidable there
+    kept_n = sum(1 for x in m1 if w[x] > 0)
+    cs = norm_slack(kept_n, W) if W > 0 else F(1)
+    chk("condition", {x: p * w[x] / W for x, p in m1.items() if w[x] > 0} if W > 0 else {}, defined=W > 0 and cs < F(1, 4), extra=cs)
+    if W > 0 and cs < F(1, 4) and isinstance(res["condition"], list):
         got = as_measure(res["condition"])
-        if got is not None and not close(sum(got.values()), 1):
+        if got is not None and abs(sum(got.values()) - 1) > TOL + SUBNORMAL_SLACK + kept_n * cs:
             bad["condition"] = "conditioning on a positive-mass event is not normalised"
     chk("joint", {(x, y): p * pq for x, p in m1.items() for y, pq in m2.items()}, joint=True)
     want = {}
@@ -701,9 +716,11 @@ def oracle(case, res, subnormal=False):
     N = sum(p * m2[x] for x, p in m1.items() if x in m2)
     # a common mass below the NORMAL float range (products are subnormal or underflow): msdm's log/exp route
     # raises or returns a visibly unnormalised answer there (observed, reported, not gated)
-    and_defined = N >= UNDERFLOW
-    chk("and", {x: p * m2[x] / N for x, p in m1.items() if x in m2} if N > 0 else {}, defined=and_defined)
-    if N > 0 and isinstance(res["and"], list) and "and" not in bad:
+    common_n = sum(1 for x in m1 if x in m2)
+    ns = norm_slack(common_n, N) if N > 0 else F(1)
+    and_defined = N > 0 and ns < F(1, 4)
+    chk("and", {x: p * m2[x] / N for x, p in m1.items() if x in m2} if N > 0 else {}, defined=and_defined, extra=ns)
+    if and_defined and isinstance(res["and"], list) and "and" not in bad:
         try:
             if sorted(map(str, (xid(e) for e, _ in res["and"]))) != sorted(map(str, (x for x in m1 if x in m2))):
                 bad["and"] = "conjunction is not supported on the common support"
@@ -713,7 +730,9 @@ def oracle(case, res, subnormal=False):
     wantx = sum(g[x] * p for x, p in m1.items())
     if isinstance(ex, (dict, str)) or not close(vlib.frac(ex), wantx, scale=sum(abs(g[x]) * p for x, p in m1.items())):
         bad["expectation"] = "expectation is not the probability-weighted sum"
-    chk("normalize", {x: p / mass1 for x, p in m1.items()} if mass1 > 0 else {}, defined=mass1 >= UNDERFLOW)
+    # normalize: sums of (sub)normal doubles lose nothing that matters and p/total is one correctly rounded division:
+    # decided for EVERY positive total, down to a single subnormal unit
+    chk("normalize", {x: p / mass1 for x, p in m1.items()} if mass1 > 0 else {}, defined=mass1 > 0)
     if res.get("fresh_same") is False:
         bad["sample-seed"] = "an updated distribution and an equal freshly built one gave different seeded sample sequences"
     # equal seeds, equal sequences: whatever the distributions are
